@@ -580,6 +580,11 @@ func (eng *Engine) verifyFuncCase(ct *Contract, res *FuncResult, caseIdx int) {
 				x.curClause = nil
 			}
 		}
+		if ct.HasAssign {
+			for ri, r := range f.rets {
+				x.checkFrame(r.s, entry, ct, entryEnv, ri, len(f.rets))
+			}
+		}
 		res.Paths += len(f.rets)
 	}
 	if suffix != "" {
